@@ -32,18 +32,58 @@ def by_err(gs, variant, kind="switch"):
     return [g for g in gs if g.kind == kind and variant in g.errs]
 
 
+class Lifted(list):
+    """backward slice of an operand as a list of (function, nodes): the slice inside the function that contains the decision and,
+    when that function is a helper the decision was inherited from, the slices of the corresponding arguments at the call sites
+    (so that `fn check(&self, expected: usize)` called with `n * m` is seen to compare against n and m)"""
+
+    def nodes_of(self, fn):
+        out = set()
+        for f, ns in self:
+            if f is fn:
+                out |= set(ns)
+        return out
+
+
 def side_walk(g, op, through=None, deep=None):
-    """backward walk of a condition operand of guard g, at the comparison's program point"""
+    """backward walk of a condition operand of guard g, at the comparison's program point, lifted through the call sites the guard
+    was inherited through"""
     b, i = g.cond.node
-    return flow(g.fn).walk(ops=[op], at=(b, i), through=through, deep=deep)
+    res = Lifted()
+    cur_fn = g.fn
+    nodes = flow(cur_fn).walk(ops=[op], at=(b, i), through=through, deep=deep)
+    res.append((cur_fn, nodes))
+    for caller, sites in getattr(g, "via", ()):
+        params = {n[1] for n in nodes if n[0] == "p"}
+        if not params:
+            break
+        nxt = set()
+        fl = flow(caller)
+        for (cb, ct) in sites:
+            for p in params:
+                if 1 <= p <= len(ct["args"]):
+                    nxt |= fl.walk(ops=[ct["args"][p - 1]], at=(cb, T), through=through, deep=deep)
+        res.append((caller, nxt))
+        cur_fn, nodes = caller, nxt
+    return res
+
+
+def _pairs(g, sl):
+    return sl if isinstance(sl, Lifted) else [(g.fn, sl)]
 
 
 def names(g, sl):
-    return flow(g.fn).callee_names_in(sl)
+    out = set()
+    for f, ns in _pairs(g, sl):
+        out |= flow(f).callee_names_in(ns)
+    return out
 
 
 def fields(g, sl):
-    return flow(g.fn).fields_in(sl)
+    out = set()
+    for f, ns in _pairs(g, sl):
+        out |= flow(f).fields_in(ns)
+    return out
 
 
 def cmp_sides(g):
@@ -68,7 +108,7 @@ def match_cmp(g, ops, left_pred, right_pred, through=None, deep=None):
 
 def has_callee(*suffixes):
     def pred(g, sl):
-        ns = names(g, sl) | {n[1] for n in sl if n[0] == "cn"}
+        ns = names(g, sl) | {n[1] for _, nodes in _pairs(g, sl) for n in nodes if n[0] == "cn"}
         return any(n.endswith(suffixes) for n in ns)
     return pred
 
@@ -81,8 +121,7 @@ def has_field(adt_suffix, fld):
 
 def has_param(name):
     def pred(g, sl):
-        fl = flow(g.fn)
-        return any(g.fn.local_name(p) == name for p in fl.params_in(sl))
+        return any(f.local_name(p) == name for f, ns in _pairs(g, sl) for p in flow(f).params_in(ns))
     return pred
 
 
